@@ -8,6 +8,7 @@ often it fails. "Accepted" = `stmtQueue.Write` returned a sequence number;
 acceptance order = sequence-number order = `q.written`.
 -/
 import RqModel.Lemmas.QueueSvc
+import RqModel.Lemmas.QueueSvcDrain
 import RqModel.Props.C24
 import RqModel.Gen.QueueSvc
 namespace C23
@@ -89,6 +90,33 @@ theorem none_dropped_while_running (m : Nat) (b t : Int) (steps : List Step) :
       · cases hs
   · intro r hc hst
     refine ⟨_, by simp only [step, hst, hc]; rfl, ?_, ?_, ?_⟩ <;> simp [finish]
+
+/-- **Nothing accepted is left behind (progress, safety form).** From any reachable
+state in which the queue and the consumer are running and the queue has a timeout:
+if `Execute` stops failing and everybody keeps running (scheduler `svcDrain`, which
+needs at most `nu v` steps because every step lowers that measure), then every
+statement of every accepted request has been applied, in acceptance order, and
+nothing is left in the queue or in the consumer's hands. -/
+theorem all_accepted_are_applied (v : Svc) (hreach : ∃ m b t steps, v = run (mk m b t) steps)
+    (hq : v.q.stopped = false) (hv : v.stopped = false) (ht : v.q.timeout ≠ 0) :
+    (svcDrain (nu v) v).applied.flatten = v.q.written.flatMap (·.objs) ∧
+    (svcDrain (nu v) v).q.written = v.q.written ∧ (svcDrain (nu v) v).cur = none ∧
+    C24.inflight (svcDrain (nu v) v).q = [] := by
+  obtain ⟨m, b, t, steps, rfl⟩ := hreach
+  obtain ⟨hi, he, ha⟩ := svcDrain_spec _ _ (inv m b t steps) hq hv (Nat.le_refl _)
+  simp only [env, Prod.mk.injEq] at he
+  generalize svcDrain (nu (run (mk m b t) steps)) (run (mk m b t) steps) = v' at hi he ha ⊢
+  have hqo : v'.q.qObjs = [] := by
+    by_cases hqo : v'.q.qObjs = []
+    · exact hqo
+    · have := hi.reach.armed (by rw [he.1]; exact hq) (by rw [he.2.1]; exact ht) hqo
+      rw [ha.settled.timer] at this; cases this
+  have hin := C24.inflight_nil_of_settled _ ha.settled hqo
+  refine ⟨?_, he.2.2, ha.cur, hin⟩
+  rw [applied_eq_done _ hi, ← he.2.2]
+  have hem : v'.q.emitted = v'.done := by rw [hi.emitted, ha.cur]; simp [optL]
+  rw [← hem]
+  exact (C24.emitted_is_prefix_of_written _ hi.reach).2 hin
 
 /-- **A waiting request returns only after its batch was applied.** Every flush
 channel that has been closed belongs to a write that is a member of a fully
